@@ -1,4 +1,4 @@
-import AgdbCodec.Lemmas.DeriveUpdate
+import AgdbCodec.Lemmas.DeriveUpdateRead
 import AgdbCodec.Lemmas.KindOk
 /-
   C22 — user types stored with the derive macros read back unchanged.
@@ -42,10 +42,22 @@ theorem C22_update_by_id (τ : TypeDesc) (v : UValList) (db : Db) (i : Int)
          | some d => some d
          | none => lookupKey old key) := by
   rw [hid]
-  exact update_exact db i old (typeValues τ v) hg (kvKeys_typeValues_nodup τ v hd)
+  obtain ⟨db', h⟩ := update_exact db i old (typeValues τ v) hg (kvKeys_typeValues_nodup τ v hd)
+  exact ⟨db', _, h⟩
 
-/-- … consequently, when the update writes every key of the type (no `None` option), reading the
-    element back as `T` gives the new value. -/
+/-- update through the id field, then select as `T`: when the new value has no `None` option
+    (so every key of the type is written) the element reads back as the new value, and no other
+    element is touched.  `old` is whatever the element held (any pairs with distinct string keys). -/
+theorem C22_update_roundtrip (τ : TypeDesc) (v : UValList) (db : Db) (i : Int)
+    (old : List (Val × Val)) (hg : db.get i = some old) (hno : (kvKeys old).Nodup)
+    (hv : WTU τ.fields v) (hd : DistinctKeys τ) (hid : uvalId v = some i)
+    (hsome : AllSome τ.fields v) :
+    ∃ db', db.insertElement (uvalId v) (typeValues τ v) = .ok (db', i) ∧
+      (∀ j, j ≠ i → db'.get j = db.get j) ∧
+      db'.selectAs .fixed τ i = .ok (normalize i τ.fields v) :=
+  update_roundtrip τ v db i old hg hno hv hd hid hsome
+
+/-- the lookup-level version, usable when some options are `None`: -/
 theorem C22_update_readback (fs : FieldList) (v : UValList) (i : Int) (old new : List (Val × Val))
     (hv : WTU fs v)
     (hl : ∀ key, lookupKey new key =
